@@ -593,7 +593,7 @@ impl Plan {
                 len
             ),
             Plan::MultipartHead(ph, len) => format!("multipart1:{}:{}", hex(ph), len),
-            Plan::Unknown(s) => format!("unknown:{}", s),
+            Plan::Unknown(s) => format!("unknown:{}", s.replace(|c: char| c.is_whitespace() || c == ':', "_")),
         }
     }
 }
